@@ -253,11 +253,39 @@ def eval_replace(state, arg):
                     return res
             finally:
                 rd.close()
+            focus = []
+            if state["model"] is not None:
+                # the literal stretches are those of the MODEL's merged tree (Save.save, the html
+                # flag decides what merges), not of the library's own: a change of /repo that merges
+                # less must still be asked to replace across the boundary it introduced (round-5
+                # seed C17-merge-key-raw-properties)
+                case_m, _ = impl_pkg.model_case(data, html, True)
+                sv = state["model"].run([8, 1 if html else 0, 1, case_m[3]])
+                if sv[0] == 0:
+                    def texts(t, acc):
+                        if t[0] == 1:
+                            if common.unS(t[2]) == "t" and t[4]:
+                                acc.append(common.unS(t[4][0]))
+                            for k in t[6]:
+                                texts(k, acc)
+                        return acc
+                    m_st = []
+                    for nm, d in sv[1]:
+                        if d[0] == 1:
+                            texts(d[1], m_st)
+                    m_st = [x for x in m_st if x]
+                    if m_st:
+                        # stretches the model has and the library has not (none on the unchanged
+                        # tree): the search is biased towards them
+                        have = set(all_st)
+                        focus = [x for x in m_st if x not in have]
+                        all_st = m_st
+                        feats.add("stretches_from_model")
             pairs = []
             for _ in range(rng.choice([1, 1, 2, 3])):
                 if all_st and rng.random() < 0.85:
-                    s = rng.choice(all_st)
-                    if rng.random() < 0.25:
+                    s = rng.choice(focus) if focus and rng.random() < 0.7 else rng.choice(all_st)
+                    if rng.random() < (0.5 if s in focus else 0.25):
                         old = s                      # the needle is the whole stretch
                     else:
                         i = rng.randrange(len(s))
